@@ -127,13 +127,14 @@ def corpus_property(ctx) -> None:
     from concurrent.futures import ProcessPoolExecutor
     from .patchvariants import corpus
 
-    ctx.rule("CORPUS", "committed corpora applied in memory: every seeded change this check is recorded to catch is still reported; every behaviour-preserving refactoring written for this property is silent")
+    ctx.rule("CORPUS", "committed corpora applied in memory: every seeded change this check is recorded to catch is still reported; every behaviour-preserving refactoring written for this property is silent, and none of those written for the other properties raises a VIOLATION here")
     jobs = []
     for cid, kind, text, meta in corpus():
         if kind == "seed" and ctx.prop in (meta.get("checks_fired") or {}):
             jobs.append((cid, kind, text, ctx.prop))
-        elif kind == "benign" and meta.get("property") == ctx.prop:
-            jobs.append((cid, kind, text, ctx.prop))
+        elif kind == "benign":
+            # refactorings written for OTHER properties count too: they edit shared code and must not alarm this check either
+            jobs.append((cid, kind if meta.get("property") == ctx.prop else "benign-other", text, ctx.prop))
     if not jobs:
         ctx.note("no corpus entries for this property")
         return
@@ -148,6 +149,10 @@ def corpus_property(ctx) -> None:
         key = f"{kind}:{status}"
         counts[key] = counts.get(key, 0) + 1
         where = f"/verif/{'seeded/' + cid + '/patch.diff' if kind == 'seed' else 'benign/' + cid + '.patch.diff'}"
+        if kind == "benign-other":
+            if status == "violation" and not dirty:
+                ctx.error(f"behaviour-preserving refactoring {cid} (written for another property) raises an alarm in this check ({detail[:200]}) - the rule is too strict")
+            continue
         if status == "stale":
             ctx.note(f"corpus entry {cid} stale (its hunks no longer match the source)")
         elif kind == "seed":
